@@ -77,8 +77,12 @@ def valid_corr(ctx, d):
            "skipped_unrecognised_record_rule": 0, "file_validate_rule_not_modelled": 0,
            "rejected_by_record_rule": 0, "rejected_by_batch_arithmetic": 0, "rejected_structure": 0}
     mo, io, co = [], [], []
+    unknown_fields = set()
     for k in range(min(len(m), len(i))):
         a, b = m[k], i[k]
+        if a.startswith("U") and b == "U":
+            unknown_fields = set(a.split(" ")[1:])
+            a = "U"
         at, bt = a.split(" ", 3), b.split(" ", 2)
         if at[0] in ("OK", "LINGER") and len(at) == 4:
             u, rule, tree = at[1], at[2], at[3]
@@ -97,6 +101,11 @@ def valid_corr(ctx, d):
                 elif u == "1" and any(c.startswith("R:") for c in cl):
                     cnt["skipped_unrecognised_record_rule"] += 1
                     a = b = "SKIP"
+                elif ds[k].startswith("line ") and any(c.startswith("R:") and c[2:] in unknown_fields for c in cl):
+                    # a line-level change: the record type is not known to the harness; the code reports a field
+                    # that an unrecognised check (of some record type) mentions
+                    cnt["skipped_unrecognised_record_rule"] += 1
+                    a = b = "SKIP"
         elif at[0] == "ERR" and bt[0] == "ERR":
             # the model names the layer that rejects: a record rule => the code reports a record (field) error,
             # the batch arithmetic alone => the code reports a batch error
@@ -104,7 +113,9 @@ def valid_corr(ctx, d):
             why = at[1] if len(at) > 1 else "00"
             if why[0] == "1" and not any(c.startswith("R:") for c in cl):
                 a, b = "ERR record-rule", "ERR " + " ".join(cl)
-            elif why[1:2] == "1" and not any(c.startswith("B") for c in cl):
+            elif why[1:2] == "1" and not any(c.startswith("B") or c.startswith("R:") for c in cl):
+                # (a record error of the code may come from a rule the model does not recognise: the record is then
+                # not attached and the batch the model rejects never comes about)
                 a, b = "ERR batch-arithmetic", "ERR " + " ".join(cl)
             else:
                 cnt["rejected_same"] += 1
